@@ -1,7 +1,7 @@
 """C10 — conversions are total and saturate at the ends of the range (guard clauses only)."""
 import re
 from ..frontend import kids, walk, qn, qtype, dtype, pos, ancestors, AnalysisBroken, params_of
-from ..expr import callee, call_args, peel, Keys, Folder
+from ..expr import callee, call_args, peel, Keys, Folder, type_range
 from ..callgraph import fname
 from . import c12
 
@@ -15,7 +15,12 @@ EXPLANATION = (
     'TimeLocal the multiplication of the 400-year shift count is dominated by the bound c4_shift <= '
     'max/kSecsPer400Years and every += of the offset by the test against max - offset, with the '
     'saturating assignment on the other edge. C10-twostep: LocalTime adds the instant and the UTC offset '
-    'in the civil domain, never as a 64-bit integer sum. Does not decide absence of overflow elsewhere '
+    'in the civil domain, never as a 64-bit integer sum. C10-bounds: every store to a type\'s civil_max / '
+    'civil_min is, as a linear form over the civil epoch, epoch + int64 max / min + the UTC offset of that same type '
+    '(LocalTime followed through its returned initialiser). C10-libc: in the libc-backed zone\'s MakeTime, for every '
+    '64-bit civil year (interval abstract interpretation with cs.year() one value across its calls), arithmetic on '
+    'the year stays within its type and the narrowing to std::tm\'s int year happens only after the saturation '
+    'tests have bounded it. Does not decide absence of overflow elsewhere '
     '(MakeSkipped/MakeRepeated differences, BreakTime\'s shift product) nor exactness of the last '
     'representable civil second: those rest on relational invariants over zone data.')
 LEVEL = ('Dominance proof that the saturation guards and sentinels the design relies on are present on every path; a '
@@ -131,6 +136,12 @@ def run(ctx):
               'found %d/%d' % (len(mults), len(adds)), construct='saturate:timelocal:count')
     ctx.minimum('C10-saturate', 7)
 
+    # ---- C10-bounds: the per-type saturation bounds are the civil images of the two ends of the instant range
+    _check_bounds(ctx)
+
+    # ---- C10-libc: the libc-backed zone narrows the civil year to tm_year only after bounding it
+    _check_libc(ctx)
+
     # ---- C10-twostep
     k = G.one('cctz::TimeZoneInfo::LocalTime', 'TransitionType')
     u, f = G.defs[k]
@@ -145,3 +156,245 @@ def run(ctx):
               'unix_time + utc_offset is formed as a 64-bit integer: it overflows for instants within 24h of the ends of the range',
               construct='twostep', detail='%d civil additions, %d integer sums' % (len(civil_adds), len(bad)))
     ctx.minimum('C10-twostep', 1)
+
+
+def _ladd(a, b, sb=1):
+    if a is None or b is None:
+        return None
+    r = dict(a)
+    for k_, v in b.items():
+        r[k_] = r.get(k_, 0) + sb * v
+        if r[k_] == 0:
+            del r[k_]
+    return r
+
+
+def civ_lin(ctx, u, e, env, depth=0):
+    """Linear form {symbol: coefficient, '': constant} of a civil_second / integer expression, in seconds from the civil
+    epoch.  Symbols are 'off:<object>' (the utc_offset of a transition type) and keys of other leaves.  env maps a
+    parameter or local key 'name#id' to a linear form, or to ('obj', key) for a reference to a transition type.  None when
+    the expression is not of a recognised form."""
+    G = ctx.G
+    keys = Keys(u)
+    x = e
+    while x is not None and x.get('kind') in ('ImplicitCastExpr', 'ParenExpr', 'MaterializeTemporaryExpr', 'CXXBindTemporaryExpr',
+                                              'ExprWithCleanups', 'CXXStaticCastExpr', 'CXXFunctionalCastExpr', 'ConstantExpr') and len(kids(x)) == 1:
+        if x.get('kind') != 'ImplicitCastExpr' and x.get('castKind') == 'IntegralCast':
+            r = type_range(dtype(x) or qtype(x))
+            if r is None or r[1] < 2 ** 63 - 1:
+                return None             # an explicit narrowing is not linear
+        x = kids(x)[0]
+    if x is None or depth > 8:
+        return None
+    c = Folder(u).fold(x)
+    if c is not None:
+        return {'': c} if c else {}
+    k = x.get('kind')
+    if k == 'CXXConstructExpr':
+        args = [a for a in kids(x) if a.get('kind') != 'CXXDefaultArgExpr']
+        if 'civil_time' in (dtype(x) or qtype(x) or '') or 'civil_second' in (qtype(x) or ''):
+            if not args:
+                return {}               # civil_second() is the epoch
+            if len(args) == 1:
+                return civ_lin(ctx, u, args[0], env, depth + 1)     # copy / conversion from an aligned civil time
+        return None
+    if k == 'CXXTemporaryObjectExpr' and not kids(x) and ('civil_time' in (dtype(x) or qtype(x) or '')):
+        return {}
+    if k == 'CXXOperatorCallExpr' and callee(x) and callee(x)[0] == 'fn' and callee(x)[1].get('name') in ('operator+', 'operator-') \
+            and len(call_args(x)) == 2:
+        a, b = call_args(x)
+        return _ladd(civ_lin(ctx, u, a, env, depth + 1), civ_lin(ctx, u, b, env, depth + 1), 1 if callee(x)[1]['name'] == 'operator+' else -1)
+    if k == 'BinaryOperator' and x.get('opcode') in ('+', '-'):
+        a, b = kids(x)
+        return _ladd(civ_lin(ctx, u, a, env, depth + 1), civ_lin(ctx, u, b, env, depth + 1), 1 if x['opcode'] == '+' else -1)
+    if k == 'UnaryOperator' and x.get('opcode') == '-':
+        return _ladd({}, civ_lin(ctx, u, kids(x)[0], env, depth + 1), -1)
+    if k == 'DeclRefExpr':
+        kk = keys.key(x)
+        if kk in env and isinstance(env[kk], dict):
+            return env[kk]
+        d = u.by_id.get((x.get('referencedDecl') or {}).get('id'))
+        if d is not None and d.get('kind') == 'VarDecl' and kids(d) and 'const' in (qtype(d) or '') and '&' not in (qtype(d) or '') \
+                and kk not in env:
+            return civ_lin(ctx, u, kids(d)[-1], env, depth + 1)     # a const local denotes its initialiser
+        return {kk: 1}
+    if k == 'MemberExpr':
+        b = kids(x)[0] if kids(x) else None
+        if x.get('name') == 'utc_offset' and b is not None:
+            return {'off:' + _obj(ctx, u, b, env): 1}
+        if x.get('name') == 'cs' and b is not None:
+            pb = peel(b, explicit=False)
+            while pb.get('kind') in ('MaterializeTemporaryExpr', 'CXXBindTemporaryExpr') and kids(pb):
+                pb = peel(kids(pb)[0], explicit=False)
+            if pb.get('kind') in ('CXXMemberCallExpr', 'CallExpr'):
+                return _cs_of_call(ctx, u, pb, env, depth + 1)
+            return None
+        return {keys.key(x): 1}
+    if k in ('CXXMemberCallExpr', 'CallExpr'):
+        kk = keys.key(x)
+        m = re.match(r'^(\w+::)*(max|min)\(\)\.count\(\)$', kk)
+        r = type_range(dtype(x) or qtype(x))
+        if m and r is not None and 'duration' in ((dtype(callee(x)[2]) or '') + (qtype(callee(x)[2]) or '') if callee(x)[2] is not None else ''):
+            # duration<Rep>::max()/min() hold the extremes of Rep
+            return {'': r[1] if m.group(2) == 'max' else r[0]}
+        return {kk: 1}
+    return None
+
+
+def _cs_of_call(ctx, u, call, env, depth):
+    """Linear form of the cs field of the absolute_lookup a call returns: the callee's single return is followed (an
+    initialiser list, or a call of a builder helper that is followed in turn)."""
+    G = ctx.G
+    if depth > 8 or not callee(call):
+        return None
+    c = callee(call)
+    d = u.by_id.get(c[3]) if c[0] == 'method' else c[1] if c[0] == 'fn' else None
+    tg = G.resolve_decl(d) if d is not None else []
+    if len(tg) != 1 or tg[0] not in G.defs:
+        return None
+    cu, cf = G.defs[tg[0]]
+    ps = params_of(cf)
+    args = call_args(call)
+    env2 = {}
+    for p_, a_ in zip(ps, args):
+        pk = '%s#%s' % (p_.get('name'), p_.get('id'))
+        t_ = qtype(p_) or ''
+        td_ = (dtype(p_) or t_).replace('const ', '').replace('&', '').strip()
+        if 'civil_' in t_ or type_range(td_) is not None or type_range(t_.replace('const ', '').replace('&', '').strip()) is not None:
+            env2[pk] = civ_lin(ctx, u, a_, env, depth + 1)
+            if env2[pk] is None:
+                return None
+        else:
+            env2[pk] = ('obj', _obj(ctx, u, a_, env))
+    rets = [r for r in walk(cf) if r.get('kind') == 'ReturnStmt' and kids(r)]
+    if len(rets) != 1:
+        return None
+    il = peel(kids(rets[0])[0], explicit=False)
+    while il.get('kind') in ('ExprWithCleanups', 'CXXConstructExpr', 'MaterializeTemporaryExpr', 'CXXBindTemporaryExpr',
+                             'CXXFunctionalCastExpr') and len([c_ for c_ in kids(il) if c_.get('kind') != 'CXXDefaultArgExpr']) == 1:
+        il = peel([c_ for c_ in kids(il) if c_.get('kind') != 'CXXDefaultArgExpr'][0], explicit=False)
+    if il.get('kind') == 'InitListExpr' and kids(il) and 'absolute_lookup' in (dtype(il) or qtype(il) or ''):
+        return civ_lin(ctx, cu, kids(il)[0], env2, depth + 1)
+    if il.get('kind') in ('CXXMemberCallExpr', 'CallExpr') and 'absolute_lookup' in (dtype(il) or qtype(il) or ''):
+        return _cs_of_call(ctx, cu, il, env2, depth + 1)
+    return None
+
+
+def _obj(ctx, u, e, env):
+    k = Keys(u).key(peel(e, explicit=False))
+    v = env.get(k)
+    if isinstance(v, tuple) and v[0] == 'obj':
+        return v[1]
+    # a reference local denotes what it is bound to
+    x = peel(e, explicit=False)
+    if x.get('kind') == 'DeclRefExpr':
+        d = u.by_id.get((x.get('referencedDecl') or {}).get('id'))
+        if d is not None and d.get('kind') == 'VarDecl' and kids(d) and '&' in (qtype(d) or '') and \
+                (d.get('_p') or {}).get('kind') == 'DeclStmt' and ((d.get('_p') or {}).get('_p') or {}).get('kind') != 'CXXForRangeStmt':
+            return _obj(ctx, u, kids(d)[-1], env)
+    return k
+
+
+def _check_bounds(ctx):
+    G = ctx.G
+    n = 0
+    for key, (u, f) in sorted(G.defs.items()):
+        if u.name != 'time_zone_info.cc':
+            continue
+        for x in walk(f):
+            lhs = rhs = None
+            if x.get('kind') == 'BinaryOperator' and x.get('opcode') == '=':
+                lhs, rhs = kids(x)
+            elif x.get('kind') == 'CXXOperatorCallExpr' and callee(x) and callee(x)[0] == 'fn' and callee(x)[1].get('name') == 'operator=' \
+                    and len(call_args(x)) == 2:
+                lhs, rhs = call_args(x)
+            if lhs is None:
+                continue
+            l = peel(lhs, explicit=False)
+            if l.get('kind') != 'MemberExpr' or l.get('name') not in ('civil_max', 'civil_min') or not kids(l):
+                continue
+            n += 1
+            which = l['name']
+            limit = 2 ** 63 - 1 if which == 'civil_max' else -2 ** 63
+            obj = _obj(ctx, u, kids(l)[0], {})
+            want = {'': limit, 'off:' + obj: 1}
+            got = civ_lin(ctx, u, rhs, {})
+            from ..symval import lin_str
+            ctx.check3(None if got is None else got == want, 'C10-bounds',
+                       '%s of a type = civil epoch %+d s + its UTC offset (%s)' % (which, limit, pos(x)), x,
+                       '%s is set to %s instead of epoch %+d + the offset of the same type: MakeTime saturates civil times that '
+                       'still have an instant, or converts civil times beyond the range with overflow'
+                       % (which, lin_str(got) if got is not None else '?', limit), construct='bounds:%s:%s' % (fname_(f), which),
+                       detail=lin_str(got) if got is not None else '')
+    ctx.minimum('C10-bounds', 4)
+
+
+def fname_(f):
+    return (qn(f) or '').split('::')[-1]
+
+
+def _check_libc(ctx):
+    """TimeZoneLibC::MakeTime for every 64-bit civil year: arithmetic on the year stays in its type, and the narrowing to
+    std::tm's int year preserves the value (interval abstract interpretation; cs.year() is one value across the calls)."""
+    from ..absint import AI, Observer, St, Int
+    G = ctx.G
+    ks = [k for k in G.defs if k[0] == 'cctz::TimeZoneLibC::MakeTime']
+    if len(ks) != 1:
+        raise AnalysisBroken('C10-libc: TimeZoneLibC::MakeTime not found (%d)' % len(ks))
+    u, f = G.defs[ks[0]]
+
+    class _O(Observer):
+        def __init__(self):
+            self.ovf = {}
+            self.nar = {}
+
+        def overflow(self, ai, e, val, it, st):
+            self.ovf[id(e)] = (e, val, it)
+
+        def narrowing(self, ai, e, val, it, explicit, st):
+            self.nar[id(e)] = (e, val, it)
+    o = _O()
+    R = Int(-2 ** 63, 2 ** 63 - 1)
+    assume = {'cctz::detail::civil_time<second_tag>::year': R}
+    ai = AI(G, o, assume_returns=assume, pure_memo=True)
+    st = St()
+    st.refs[params_of(f)[0]['id']] = ('CS',)
+    res = ai.analyse(ks[0], st)
+    if not res:
+        raise AnalysisBroken('C10-libc: TimeZoneLibC::MakeTime could not be analysed')
+    ctx.stats['absint_libc'] = dict(ai.stats)
+
+    def mentions_year(x, uu=None, depth=0):
+        for y in walk(x):
+            if y.get('kind') == 'CXXMemberCallExpr' and callee(y) and callee(y)[1] == 'year':
+                return True
+            if y.get('kind') == 'DeclRefExpr' and uu is not None and depth < 3:
+                d_ = uu.by_id.get((y.get('referencedDecl') or {}).get('id'))
+                if d_ is not None and d_.get('kind') == 'VarDecl' and kids(d_) and mentions_year(kids(d_)[-1], uu, depth + 1):
+                    return True
+        return False
+    n = 0
+    for (uu, ff) in ctx.scope(f):
+        for x in walk(ff):
+            if x.get('kind') == 'BinaryOperator' and x.get('opcode') in ('+', '-', '*') and mentions_year(x, uu) and \
+                    (type_range(dtype(x) or qtype(x)) or (0, 0))[0] < 0:
+                n += 1
+                b = o.ovf.get(id(x))
+                ctx.check(b is None, 'C10-libc', 'year arithmetic at %s stays within its type for every civil year' % pos(x), x,
+                          'for some civil year the result %s of this %s does not fit %s: undefined behaviour before the year has been '
+                          'bounded (the saturation tests must not themselves overflow)' % (b[1] if b else '', x.get('opcode'), b[2] if b else ''),
+                          construct='libc:ovf:%s' % fname_(ff), detail=str(b[1]) if b else '')
+            elif (x.get('kind') in ('CXXStaticCastExpr', 'CStyleCastExpr', 'CXXFunctionalCastExpr') or
+                  (x.get('kind') == 'ImplicitCastExpr' and x.get('castKind') == 'IntegralCast' and not x.get('isPartOfExplicitCast'))) \
+                    and mentions_year(x, uu) and type_range(dtype(x) or qtype(x)) is not None and \
+                    (type_range(dtype(x) or qtype(x)) or (0, 2 ** 64))[1] < 2 ** 63 - 1:
+                n += 1
+                b = o.nar.get(id(x))
+                if b is None:
+                    for y in walk(x):
+                        if id(y) in o.nar:
+                            b = o.nar[id(y)]
+                ctx.check(b is None, 'C10-libc', 'year narrowed at %s only after it has been bounded' % pos(x), x,
+                          'the civil year can be %s here and is narrowed to %s: mktime() is asked about another year instead of the '
+                          'result saturating' % (b[1] if b else '', dtype(x)), construct='libc:narrow:%s' % fname_(ff), detail=str(b[1]) if b else '')
+    ctx.minimum('C10-libc', 3)
